@@ -2527,6 +2527,9 @@ var leaves7 = []leaf7Spec{
 	{"core/sync", "Run", "sync_Run_correction", "LeafSync"},
 	{"net/ntske", "ServerCookie.Encode", "ntske_ServerCookie_Encode", "LeafNtske"},
 	{"net/ntske", "EncryptedServerCookie.Encode", "ntske_EncryptedServerCookie_Encode", "LeafNtske"},
+	// eighth generation: `for cond {}`, binary.BigEndian.Uint16(b[off:]), b[lo:hi] as a value
+	{"net/ntske", "ServerCookie.Decode", "ntske_ServerCookie_Decode", "LeafNtske"},
+	{"net/ntske", "EncryptedServerCookie.Decode", "ntske_EncryptedServerCookie_Decode", "LeafNtske"},
 	// eighth generation (leaf8.go): the clock object — recorded system calls with their argument
 	// values, pointers to immutable structs with identity, the expiry goroutine
 	{"driver/clocks", "setOffset", "clocks_setOffset", "LeafClocks"},
@@ -2592,7 +2595,7 @@ func emitLeaves7(repo string, parsed map[string][]*ast.File, fset *token.FileSet
 			if c.err == nil && c.hasThread("w") && refProblem != "" {
 				c.fail("pointer rendering not faithful: %s", refProblem)
 			}
-			if c.hasThread("w") {
+			if c.hasThread("w") || c.needPrelude3 {
 				deps["!GoPrelude3"] = true
 			}
 			if c.err == nil && !forceOut[l.lean] {
